@@ -153,7 +153,7 @@ def unary_ops(subsample=True):
         L.append(('pa', inpl))
         L.append(('remove_empty', 'whole', inpl))
     L += [('transpose',), ('copy',), ('head', 2, 2), ('head', 1, 1), ('nnz',), ('col',), ('row',),
-          ('iter',), ('eq',), ('del_md_whole',), ('poke_zero',), ('iter_interleaved',)]
+          ('iter',), ('eq',), ('del_md_whole',), ('poke_zero',), ('iter_interleaved',), ('twin',)]
     return L
 
 
@@ -370,6 +370,16 @@ def apply(op, t, m, strict=True):
         mm = m.copy()
         mm.m[i][j] = 0.0
         return Res(t, mm, True)
+    if n == 'twin':
+        # a second table is built from the matrix this one exposes and then changed in place (rows removed, values
+        # rewritten): the constructor owns its matrix, so this table must not notice
+        from biom import Table
+        if len(m.o) < 2 or not m.c:
+            raise Refuse()
+        tw = Table(t.matrix_data, [str(i) for i in t.ids('observation')], [str(i) for i in t.ids()])
+        tw.filter([str(t.ids('observation')[0])], axis='observation', inplace=True)
+        tw.transform(lambda v, i, md: v * 3 + 1, axis='observation', inplace=True)
+        return Res(t, m, True)
     if n == 'iter_interleaved':
         # two live iterators over different axes, advanced in lock-step
         for _ in zip(t.iter(axis='observation'), t.iter(axis='sample')):
